@@ -156,3 +156,57 @@ def late_binding_closures(fn: ast.AST) -> List[str]:
                         if captured:
                             out.append(f"line {lam.lineno}: {sorted(captured)}")
     return out
+
+
+_SUB_CACHE = {}
+
+
+def import_obligations(col, new_rule: str, module: str, pred, why: str = ""):
+    """Re-state obligations established by another property's checker under this property (one mechanism often
+    carries several properties).  `pred(ob)` selects them; the sub-run is cached per process."""
+    import importlib
+    from sa.core.common import Collector
+    if _SUB_CACHE.get(module) == "in-progress":
+        raise AnalysisError(f"circular cross-reference between property checkers through {module}")
+    if module not in _SUB_CACHE:
+        _SUB_CACHE[module] = "in-progress"
+        sub = Collector(module)
+        importlib.import_module(f"sa.props.{module}").check(sub, "quick")
+        _SUB_CACHE[module] = sub
+    n = 0
+    for o in _SUB_CACHE[module].obs:
+        if pred(o):
+            col.add(new_rule, o.construct, o.detail, o.ok, o.msg + (f" ({why})" if why else ""), o.loc)
+            n += 1
+    if n == 0:
+        raise AnalysisError(f"cross-referenced obligations of {module} for {new_rule} not found")
+
+
+def check_prefix_test(col, rule: str, repo: Repo):
+    """gc_scope.starts_with: the cached-representation test must compare EVERY frame of the prefix by identity."""
+    f = repo.method("gc_scope", "starts_with")
+    alls = [c for c in ast.walk(f.node) if isinstance(c, ast.Call) and call_name(c) == "all"]
+    ok = len(alls) == 1
+    why = ""
+    if ok:
+        gens = [n for n in ast.walk(alls[0]) if isinstance(n, ast.comprehension)]
+        ok = len(gens) == 1 and isinstance(gens[0].iter, ast.Call) and call_name(gens[0].iter) == "zip" and len(gens[0].iter.args) == 2
+        if ok:
+            for a in gens[0].iter.args:
+                base = a
+                if isinstance(a, ast.Subscript):
+                    sl = a.slice
+                    if not (isinstance(sl, ast.Slice) and (sl.lower is None or src(sl.lower) == "0") and sl.step is None):
+                        ok = False
+                        why = f"operand {src(a)} skips frames"
+                    base = a.value
+                if not src(base).endswith("._scope_stack"):
+                    ok = False
+            comp = [n for n in ast.walk(alls[0]) if isinstance(n, ast.Compare)]
+            ok = ok and len(comp) == 1 and isinstance(comp[0].ops[0], ast.Is)
+    col.add(rule, "gc_scope.starts_with", "every-frame-compared-by-identity", ok,
+            "starts_with must compare all frames, from the outermost one, by identity (`a is b` over zip of the two stacks): two translations "
+            "have different outermost blocks, and a representation left on a shared AST node by an earlier translation must not look valid; " + why, f.loc)
+    lg = any(isinstance(n, ast.If) and isinstance(n.test, ast.Compare) and isinstance(n.test.ops[0], ast.Gt) and "len(c._scope_stack)" in src(n.test.left)
+             and any(isinstance(r, ast.Return) and src(r.value) == "False" for r in n.body) for n in ast.walk(f.node))
+    col.add(rule, "gc_scope.starts_with", "longer-scope-is-never-a-prefix", lg, "a scope with more frames than ours cannot be our prefix", f.loc)
